@@ -59,7 +59,17 @@ pub fn err_json(e: &IggyError) -> Value {
             }
             json!({"r": "err", "code": e.as_code(), "name": e.as_string(), "http": status, "body": reason})
         }
-        IggyError::ResourceNotFound(_) => json!({"r": "err", "code": e.as_code(), "name": "resource_not_found"}),
+        IggyError::ResourceNotFound(reason) => {
+            // the HTTP client turns every 404 into this error, with the server's own error (id, code) as the text
+            if let Ok(v) = serde_json::from_str::<Value>(reason) {
+                if let (Some(id), Some(code)) = (v.get("id").and_then(|x| x.as_u64()), v.get("code").and_then(|x| x.as_str())) {
+                    if code != "resource_not_found" && code != "not_found" {
+                        return json!({"r": "err", "code": id, "name": code, "http": 404});
+                    }
+                }
+            }
+            json!({"r": "err", "code": e.as_code(), "name": "resource_not_found"})
+        }
         _ => json!({"r": "err", "code": e.as_code(), "name": e.as_string()}),
     }
 }
